@@ -54,7 +54,7 @@ def ensure_dirs():
 def sha_files(paths):
     h = hashlib.sha256()
     for p in sorted(paths):
-        h.update(p.encode())
+        h.update(os.path.basename(p).encode())      # content-addressed: independent of where /verif lives
         with open(p, "rb") as f:
             h.update(f.read())
     return h.hexdigest()
